@@ -66,6 +66,9 @@ pub struct Wire {
     pub pending_armed: bool,
     pub htp_phase: u8,
     pub writes: u64,
+    /// poll_write_vectored gathers all slices (see there); on by default
+    pub gather: bool,
+    pub gathered_calls: u64,
     pub chz: Option<Chz>,
 }
 
@@ -98,6 +101,8 @@ impl Wire {
             pending_armed: true,
             htp_phase: 0,
             writes: 0,
+            gather: true,
+            gathered_calls: 0,
             chz: None,
         }))
     }
@@ -165,12 +170,9 @@ impl AsyncRead for MockRead {
     }
 }
 
-impl AsyncWrite for MockWrite {
-    fn poll_write(
-        self: Pin<&mut Self>,
-        cx: &mut Context<'_>,
-        buf: &[u8],
-    ) -> Poll<io::Result<usize>> {
+impl MockWrite {
+    /// `first`: for a gathered write, the length of the first slice of the concatenation `buf`
+    fn accept(&self, cx: &mut Context<'_>, buf: &[u8], first: Option<usize>) -> Poll<io::Result<usize>> {
         let mut w = self.0.borrow_mut();
         w.writes += 1;
         w.write_blocked = false;
@@ -232,11 +234,16 @@ impl AsyncWrite for MockWrite {
             WriteMode::Explore => {
                 let chz = w.chz.clone().expect("Explore write mode needs a chooser");
                 // A Pending answer is never given twice in a row for the same call.
-                let opts = if w.pending_armed { 4 } else { 3 };
+                // (gathered write over several slices: one more way - everything of the first slice and
+                // one byte of the second, i.e. a partial write that ends just inside the next packet)
+                let into_next = first.filter(|f| *f < buf.len());
+                let base = if into_next.is_some() { 4 } else { 3 };
+                let opts = if w.pending_armed { base + 1 } else { base };
                 match chz.deviate(opts) {
                     0 => buf.len(),
                     1 => 1,
                     2 => (buf.len() / 2).max(1),
+                    3 if into_next.is_some() => into_next.unwrap() + 1,
                     _ => {
                         w.pending_armed = false;
                         w.write_blocked = true;
@@ -249,6 +256,35 @@ impl AsyncWrite for MockWrite {
         w.pending_armed = true;
         w.out.extend_from_slice(&buf[..n]);
         Poll::Ready(Ok(n))
+    }
+}
+
+impl AsyncWrite for MockWrite {
+    fn poll_write(
+        self: Pin<&mut Self>,
+        cx: &mut Context<'_>,
+        buf: &[u8],
+    ) -> Poll<io::Result<usize>> {
+        self.accept(cx, buf, None)
+    }
+
+    /// A transport that really gathers (a socket's writev): the slices are taken as one run of bytes,
+    /// so a partial write may end anywhere - also inside a later slice. (`Wire::gather` off: the
+    /// default behaviour of `AsyncWrite`, the first non-empty slice only.)
+    fn poll_write_vectored(
+        self: Pin<&mut Self>,
+        cx: &mut Context<'_>,
+        bufs: &[io::IoSlice<'_>],
+    ) -> Poll<io::Result<usize>> {
+        let gather = self.0.borrow().gather;
+        let first = bufs.iter().find(|b| !b.is_empty()).map(|b| b.len());
+        if !gather {
+            let b = bufs.iter().find(|b| !b.is_empty()).map_or(&[][..], |b| &**b);
+            return self.accept(cx, b, None);
+        }
+        let all: Vec<u8> = bufs.iter().flat_map(|b| b.iter().copied()).collect();
+        self.0.borrow_mut().gathered_calls += 1;
+        self.accept(cx, &all, first)
     }
 
     fn poll_flush(self: Pin<&mut Self>, _cx: &mut Context<'_>) -> Poll<io::Result<()>> {
